@@ -190,7 +190,7 @@ func ruleInstallSnapshot() *Rule {
 						r[0].Construct = off.Construct
 						out = append(out, r...)
 					}
-					lab := evalObs(a, id, []*Observation{o}, func(_ *Observation, pt int) bool { return sp.Val(pt, iLabel) == EQ }, []int{iLabel, iSnapNil},
+					lab := evalObs(a, id, []*Observation{o}, func(_ *Observation, pt int) bool { return sp.Val(pt, iLabel) == EQ }, []int{iLabel},
 						"a chunk extends only the partial file of its own snapshot (file label = request.LastIncludedIndex)")
 					lab[0].Construct = "CHUNK-LABEL " + o.Key
 					out = append(out, lab...)
@@ -212,9 +212,121 @@ func ruleInstallSnapshot() *Rule {
 					out = append(out, obs...)
 				}
 			}
+			out = append(out, installCompleteness(p, id, root)...)
 			return out
 		},
 	}
+}
+
+// installCompleteness: IS-DONE and IS-COMPLETE, a second pass over the handler with its own small vocabulary.
+func installCompleteness(p *Program, id string, root *ssa.Function) []Obligation {
+	stateAtom := p.StateAtom()
+	names := []string{"published", "boundaryIdx", "boundaryTerm", "restored", "appliedMoved", "commitMoved", "confApplied", "logDiscarded"}
+	atoms := []*Atom{stateAtom, BoolAtom("done", "p0.Done")}
+	for _, n := range names {
+		atoms = append(atoms, GhostAtom(n, "no", "yes"))
+	}
+	const (
+		iState = iota
+		iDone
+		iPub
+		iBIdx
+		iBTerm
+		iRestored
+		iAppl
+		iComm
+		iConf
+		iDisc
+	)
+	sp := NewSpace(atoms...)
+	a := NewAnalysis(p, sp)
+	applyConf := p.Func("(*Raft).applyConfiguration")
+	a.Hook = func(a *Analysis, f *Frame, in ssa.Instruction, st State) State {
+		if s, name := raftFieldStore(in); s != nil && f.Parent == nil {
+			v := p.Canon(f, s.Val).S
+			switch {
+			case name == "lastIncludedIndex" && v == "p0.LastIncludedIndex":
+				return sp.Assign(st, iBIdx, 1)
+			case name == "lastIncludedTerm" && v == "p0.LastIncludedTerm":
+				return sp.Assign(st, iBTerm, 1)
+			case name == "lastApplied" && v == "p0.LastIncludedIndex":
+				return sp.Assign(st, iAppl, 1)
+			case name == "commitIndex" && v == "p0.LastIncludedIndex":
+				return sp.Assign(st, iComm, 1)
+			}
+			return st
+		}
+		if c, ok := in.(*ssa.Call); ok && applyConf != nil && c.Common().StaticCallee() == applyConf && f.Parent == nil {
+			if p.Canon(f, c.Common().Args[1]).S == "p0.Configuration" {
+				return sp.Assign(st, iConf, 1)
+			}
+		}
+		if iface, m, c := invokeOf(in); iface != "" && f.Parent == nil {
+			if _, isDefer := in.(*ssa.Defer); isDefer {
+				return st
+			}
+			switch iface + "." + m {
+			case "Log.DiscardEntries":
+				return sp.Assign(st, iDisc, 1)
+			case "StateMachine.Restore":
+				return sp.Assign(st, iRestored, 1)
+			case "SnapshotFile.Close":
+				if p.Canon(f, c.Value).S == "r.snapshot" {
+					a.Observe("IS-DONE call SnapshotFile.Close on the received file in "+chainKey(f), f, in, st)
+					return sp.Assign(st, iPub, 1)
+				}
+			}
+		}
+		if ret, ok := exitPoint(in); ok && f.Parent == nil && returnedError(ret) == "nil" {
+			n := instrOrdinal(ret, func(x ssa.Instruction) bool { _, ok := x.(*ssa.Return); return ok })
+			a.Observe(fmt.Sprintf("EXIT return #%d of (*Raft).InstallSnapshot", n), f, in, st)
+		}
+		return st
+	}
+	entry := sp.Top()
+	for g := iPub; g <= iDisc; g++ {
+		entry = sp.Filter(entry, g, 1)
+	}
+	a.RunFrame(NewRootFrame(root), entry)
+	SD := enumIdx(stateAtom, "Shutdown")
+	var out []Obligation
+	var incomplete []string
+	exitPos := ""
+	nPub := 0
+	for _, o := range a.SortedObs() {
+		if strings.HasPrefix(o.Key, "IS-DONE") {
+			nPub++
+			out = append(out, evalObs(a, id, []*Observation{o}, func(_ *Observation, pt int) bool { return sp.Val(pt, iDone) == 1 }, []int{iDone},
+				"the received file is published (closed, renamed, installed) only with the chunk marked Done")...)
+			continue
+		}
+		exitPos = o.Pos
+		bad := sp.Where(o.State, func(pt int) bool {
+			if sp.Val(pt, iPub) == 1 && (sp.Val(pt, iBIdx) == 0 || sp.Val(pt, iBTerm) == 0) {
+				return true
+			}
+			if sp.Val(pt, iRestored) == 1 && sp.Val(pt, iState) != SD {
+				return sp.Val(pt, iAppl) == 0 || sp.Val(pt, iComm) == 0 || sp.Val(pt, iConf) == 0 || sp.Val(pt, iDisc) == 0
+			}
+			return false
+		})
+		if !bad.IsEmpty() {
+			incomplete = append(incomplete, o.Key+" ("+o.Pos+"): "+strings.Join(sp.Project(bad, iPub, iBIdx, iBTerm, iRestored, iAppl, iComm, iConf, iDisc), " | "))
+		}
+	}
+	if nPub == 0 {
+		out = append(out, Obligation{Rule: id, Construct: "IS-DONE call SnapshotFile.Close on the received file in (*Raft).InstallSnapshot", Verdict: Violated, Pos: exitPos,
+			Detail: "the handler never publishes the received snapshot file (no SnapshotFile.Close on r.snapshot): a snapshot can never be installed"})
+	}
+	comp := Obligation{Rule: id, Construct: "IS-COMPLETE a published / restored snapshot is fully installed in (*Raft).InstallSnapshot", Pos: exitPos}
+	if len(incomplete) > 0 {
+		comp.Verdict = Violated
+		comp.Detail = "the handler can return after publishing the received snapshot without moving lastIncludedIndex/Term to its label, or after restoring the state machine (on a running node) without moving lastApplied and commitIndex to the label, applying the snapshot's configuration and restarting the log at the label: the node's indices, configuration and log no longer describe its state machine"
+		comp.Facts = incomplete
+	} else {
+		comp.Verdict, comp.Detail = Discharged, "boundary moved whenever the file is published; indices, configuration and log reset whenever the state machine is restored on a running node"
+	}
+	return append(out, comp)
 }
 
 // ruleSnapLabel: C10 SNAP-LABEL (takeSnapshot) and C11 SNAP-FALLBACK, C15 SNAP-HANDSHAKE, C04 MATCH-PROV (sender side).
@@ -285,7 +397,8 @@ func takeSnapshotTrim(p *Program, id string, root *ssa.Function) []Obligation {
 		return []Obligation{{Rule: id, Construct: "call Log.Compact after the snapshot window in (*Raft).takeSnapshot", Verdict: Violated,
 			Detail: "after the unlocked StateMachine.Snapshot call nothing compares the snapshot's label with lastIncludedIndex before trimming the log: a snapshot installed meanwhile is overwritten by an older boundary"}}
 	}
-	sp := NewSpace(CmpAtom("label?lastInclIdx", labelIdx, "r.lastIncludedIndex"), GhostAtom("boundarySet", "no", "yes"))
+	labelTerm := strings.TrimSuffix(labelIdx, ".Index") + ".Term"
+	sp := NewSpace(CmpAtom("label?lastInclIdx", labelIdx, "r.lastIncludedIndex"), GhostAtom("boundarySet", "no", "yes"), GhostAtom("boundaryTermSet", "no", "yes"))
 	a := NewAnalysis(p, sp)
 	lii := p.Field("Raft.lastIncludedIndex")
 	a.Hook = func(a *Analysis, f *Frame, in ssa.Instruction, st State) State {
@@ -304,9 +417,12 @@ func takeSnapshotTrim(p *Program, id string, root *ssa.Function) []Obligation {
 		if s, fld := storeField(in); s != nil && fld == lii && p.Canon(f, s.Val).S == labelIdx {
 			return sp.Assign(st, 1, 1)
 		}
+		if s, fld := storeField(in); s != nil && fld == p.Field("Raft.lastIncludedTerm") && p.Canon(f, s.Val).S == labelTerm {
+			return sp.Assign(st, 2, 1)
+		}
 		return st
 	}
-	a.RunFrame(NewRootFrame(root), sp.Filter(sp.Top(), 1, 1))
+	a.RunFrame(NewRootFrame(root), sp.Filter(sp.Filter(sp.Top(), 1, 1), 2, 1))
 	var out []Obligation
 	for _, o := range a.SortedObs() {
 		if strings.HasPrefix(o.Key, "store") {
@@ -318,8 +434,8 @@ func takeSnapshotTrim(p *Program, id string, root *ssa.Function) []Obligation {
 			out = append(out, obs...)
 			continue
 		}
-		obs := evalObs(a, id, []*Observation{o}, func(_ *Observation, pt int) bool { return sp.Val(pt, 1) == 1 }, []int{1},
-			"the log is compacted only after the boundary was moved to the new snapshot's label")
+		obs := evalObs(a, id, []*Observation{o}, func(_ *Observation, pt int) bool { return sp.Val(pt, 1) == 1 && sp.Val(pt, 2) == 1 }, []int{1, 2},
+			"the log is compacted only after the boundary (index and term) was moved to the new snapshot's label")
 		if arg := o.Extra["arg"]; arg != "r.lastIncludedIndex" && arg != labelIdx {
 			obs[0].Verdict, obs[0].Detail = Violated, "Log.Compact("+arg+"), must compact at the new snapshot's label"
 		}
